@@ -102,7 +102,12 @@ def is_xtag_limit(entered_input: str, division: Union[Literal["Strom"], Literal[
         xtag_evaluator = is_gastag_limit
     else:
         raise NotImplementedError(f"The division must either be 'Strom' or 'Gas': '{division}'")
-    if xtag_evaluator(date_time):  # type:ignore[arg-type]
+    try:
+        is_xtag_limit_result = xtag_evaluator(date_time)  # type:ignore[arg-type]
+    except OverflowError as overflow_error:
+        # the conversion to German local time leaves the range of representable datetimes (year 1 or 9999)
+        return EvaluatedFormatConstraint(format_constraint_fulfilled=False, error_message=str(overflow_error))
+    if is_xtag_limit_result:
         return EvaluatedFormatConstraint(format_constraint_fulfilled=True, error_message=None)
     error_message = (
         f"The given datetime '{date_time.isoformat()}' is not the limit of a {division}tag"  # type:ignore[union-attr]
